@@ -37,7 +37,14 @@ git -C "$wt" apply "$dst/patch.diff"; rc_apply=$?
 (cd "$wt" && go build ./...) > /dev/null 2>&1; rc_build=$?
 (cd "$wt" && go test -vet=off -count=1 -timeout 20m -run "^($tests)\$" ./$dir) > "$dst/confirm_demo_with.txt" 2>&1; rc_with=$?
 rm -f "$wt/$dir/zz_seed_demo_test.go"
-(cd "$wt" && nice go test -json -vet=off -count=1 -timeout 25m ./... ) > /tmp/conf-$name.json 2>/dev/null
+# CONFIRM_SCOPE=touched: only the packages the patch touches (plus the root package's dependents
+# http and ctl when the root package is touched) instead of the whole suite
+pkgs="./..."
+if [ "${CONFIRM_SCOPE:-all}" = "touched" ]; then
+  pkgs=$(grep '^+++ b/' "$dst/patch.diff" | sed 's#^+++ b/##' | xargs -n1 dirname | sort -u | sed 's#^#./#' | tr '\n' ' ')
+  case " $pkgs " in *" ./. "*) pkgs="$pkgs ./http ./ctl" ;; esac
+fi
+(cd "$wt" && nice go test -json -vet=off -count=1 -timeout 25m $pkgs ) > /tmp/conf-$name.json 2>/dev/null
 python3 - "$name" "$wt" "$rc_without" "$rc_apply" "$rc_build" "$rc_with" <<'PY'
 import json,sys,subprocess,os
 name,wt,rw,ra,rb,rwith=sys.argv[1],sys.argv[2],*map(int,sys.argv[3:7])
@@ -49,6 +56,10 @@ for line in open('/tmp/conf-%s.json'%name):
     except Exception: continue
     if e.get('Test') and e.get('Action') in('pass','fail','skip'):
         res[e['Package']+'::'+e['Test']]=e['Action']
+scope=os.environ.get('CONFIRM_SCOPE','all')
+if scope=='touched':
+    ran=set(k.split('::')[0] for k in res)
+    stable=set(k for k in stable if k.split('::')[0] in ran)
 failed=sorted(k for k in stable if res.get(k)!='pass')
 still=[]
 for k in failed:
@@ -60,7 +71,7 @@ for k in failed:
     if not ok: still.append(k)
 out={"seed":name,"repo_head":subprocess.check_output(['git','-C','/repo','rev-parse','--short','HEAD'],text=True).strip(),
  "demo_passes_without_change":rw==0,"patch_applies":ra==0,"builds":rb==0,"demo_fails_with_change":rwith!=0,
- "suite_tests_seen":len(res),"stable_pass_set":len(stable),"suite_failed_first_run":failed,"suite_failed_after_rerun_alone":still,
+ "suite_scope":scope,"suite_tests_seen":len(res),"stable_pass_set":len(stable),"suite_failed_first_run":failed,"suite_failed_after_rerun_alone":still,
  "suite_passes_with_change":len(still)==0 and len(res)>=len(stable),
  "confirmed": rw==0 and ra==0 and rb==0 and rwith!=0 and len(still)==0 and len(res)>=len(stable)}
 json.dump(out,open('/verif/seeded/%s/confirm.json'%name,'w'),indent=1)
